@@ -162,10 +162,11 @@ def do_spelling(case):
             fails.append(({'kind': 'spelling', 'spelling': k, 'otype': o['type']},
                           {'cfg': text, 'ref_cfg': '%s=%s' % (name, v), 'res': r.brief()}))
     if True:        # (--set takes the value as it is: blanks, '=' and the empty string are values like any other)
-        r = D('', extra=['--set', '%s=%s' % (name, value)])
-        if (r.status, r.out) != (ref.status, ref.out):
-            fails.append(({'kind': 'spelling', 'spelling': '--set', 'otype': o['type']},
-                          {'cfg': '--set %s=%s' % (name, value), 'res': r.brief()}))
+        for sp_, nm in (('--set', name), ('--set-upper', name.upper()), ('--set-mixed', name.title())):
+            r = D('', extra=['--set', '%s=%s' % (nm, value)])
+            if (r.status, r.out) != (ref.status, ref.out):
+                fails.append(({'kind': 'spelling', 'spelling': sp_, 'otype': o['type']},
+                              {'cfg': '--set %s=%s' % (nm, value), 'res': r.brief()}))
     return fails
 
 
@@ -197,11 +198,13 @@ def do_reference(case):
         want = 'false' if oval == 'true' else 'true'
     else:
         want = str(-int(oval))
-    a = D('%s=%s\n%s=%s%s\n' % (other, oval, name, prefix, other))
     b = D('%s=%s\n%s=%s\n' % (other, oval, name, want))
-    if (a.status, a.out) != (b.status, b.out) or a.err.strip():
-        fails.append(({'kind': 'reference', 'otype': o['type'], 'prefix': prefix},
-                      {'cfg': '%s=%s ; %s=%s%s' % (other, oval, name, prefix, other), 'want': want, 'res': a.brief()}))
+    # the referenced option named in lower, upper and mixed case ("option names in any case, and references to other options")
+    for case_, ref in (('lower', other), ('upper', other.upper()), ('mixed', other.title())):
+        a = D('%s=%s\n%s=%s%s\n' % (other, oval, name, prefix, ref))
+        if (a.status, a.out) != (b.status, b.out) or a.err.strip():
+            fails.append(({'kind': 'reference', 'otype': o['type'], 'prefix': prefix, 'ref_case': case_},
+                          {'cfg': '%s=%s ; %s=%s%s' % (other, oval, name, prefix, ref), 'want': want, 'res': a.brief()}))
     return fails
 
 
